@@ -1,6 +1,7 @@
 """C13 — fading channels apply block-constant, correctly normalised gains: y = h.x + n."""
 import math
 from fractions import Fraction
+import numpy as np
 from ..runner import Op
 
 ID = "C13"
@@ -68,7 +69,10 @@ def corr(ctx):
                           info={"site": "channels:FlatFadingChannel.csi", "config": {"shape": list(shape), "complex_input": cplx_in}}))
             ctx.count("csi_cases")
     # ---- coefficient laws and SNR-mode noise against the regenerated draws (float64 evaluation of the definition)
-    for kind, kw in (("rayleigh", {}), ("rician", {"k_factor": 0.0}), ("rician", {"k_factor": 3.0}), ("rician", {"k_factor": 100.0}), ("lognormal", {"shadow_sigma_db": 4.0})):
+    for kind, kw in (("rayleigh", {}), ("rician", {"k_factor": 0.0}), ("rician", {"k_factor": 3.0}), ("rician", {"k_factor": 100.0}), ("lognormal", {"shadow_sigma_db": 4.0}),
+                     # the K-factor written as a Python int (as in the class docstring), a numpy scalar, a 0-d tensor
+                     ("rician", {"k_factor": 4}), ("rician", {"k_factor": 1}), ("rician", {"k_factor": 0}), ("rician", {"k_factor": np.float32(2.5)}), ("rician", {"k_factor": torch.tensor(6.0)}),
+                     ("lognormal", {"shadow_sigma_db": 4})):
         for mode in ("power", "snr"):
             case += 1
             B, L, T = 3, 10, 4
@@ -81,12 +85,12 @@ def corr(ctx):
             if kind == "rayleigh":
                 h = torch.complex(torch.randn(B, nb), torch.randn(B, nb)) / (2 ** 0.5)
             elif kind == "rician":
-                K = kw["k_factor"]
+                K = float(kw["k_factor"])
                 a = math.sqrt(K / (K + 1)); sg = math.sqrt(1 / (K + 1)) / math.sqrt(2)
                 h = torch.complex(a + torch.randn(B, nb) * sg, torch.randn(B, nb) * sg)
             else:
                 hr = torch.complex(torch.randn(B, nb), torch.randn(B, nb)) / (2 ** 0.5)
-                sl = kw["shadow_sigma_db"] * math.log(10.0) / 10
+                sl = float(kw["shadow_sigma_db"]) * math.log(10.0) / 10
                 h = hr * torch.exp(torch.randn(B, nb) * sl - sl * sl / 2)
             hexp = h[:, torch.arange(L) // T]
             faded = hexp * x
@@ -94,7 +98,7 @@ def corr(ctx):
             P = 0.3 if mode == "power" else float(torch.mean(torch.abs(faded) ** 2)) / 10 ** (7.0 / 10)
             want = faded + torch.complex(zr, zi) * math.sqrt(P / 2)
             ok = bool(torch.allclose(y, want, rtol=2e-5, atol=2e-6)) and tuple(y.shape) == tuple(x.shape)
-            ops.append(Op("expand 1 1 0", "0 1", nontrivial=False, info={"site": "channels:FlatFadingChannel.law", "config": {"kind": kind, "mode": mode, **kw, "max_dev": float((y - want).abs().max())}}, prop_ok=ok))
+            ops.append(Op("expand 1 1 0", "0 1", nontrivial=False, info={"site": "channels:FlatFadingChannel.law", "config": {"kind": kind, "mode": mode, **{k_: (float(v_), type(v_).__name__) for k_, v_ in kw.items()}, "max_dev": float((y - want).abs().max())}}, prop_ok=ok))
             ctx.count("law_cases")
     # convenience classes share the implementation
     for ch, nm in ((RayleighFadingChannel(coherence_time=2, avg_noise_power=0.1), "RayleighFadingChannel"), (RicianFadingChannel(k_factor=2.0, coherence_time=2, snr_db=5.0), "RicianFadingChannel")):
